@@ -129,7 +129,7 @@ def _run_read(H, nkind, ckind, nstep, cstep, via):
 @harness(PROPERTY, "getitem_layout", functions=["spikeglx:Reader.__getitem__", "spikeglx:Reader.read", "spikeglx:Reader.type", "spikeglx:_get_type_from_meta"],
          replay=replay_read, clause="indexing with sample and channel selectors returns float32(raw) x gain laid out as NumPy indexing of the calibrated array")
 def h_getitem(H):
-    combos = [("int", None, None, None), ("slice", None, None, None), ("slice", None, -1, None), ("slice", None, 2, None)]
+    combos = [("int", None, None, None), ("slice", None, None, None), ("slice", None, -1, None), ("slice", None, 2, None), ("array", None, None, None)]
     for nk in ("int", "slice", "array"):
         for ck in ("int", "slice", "array"):
             if nk == "array" and ck == "array":
